@@ -265,11 +265,13 @@ func (d *badgerNodeDB) cleanMultipartLocked(removeNodes bool) error {
 		}
 	}
 
+	verifCrashPoint("badger.cleanmp.0-before-writes")
 	// Flush batch first. If anything fails, having corrupt
 	// multipart info in d.meta shouldn't hurt us next run.
 	if err := batch.Flush(); err != nil {
 		return err
 	}
+	verifCrashPoint("badger.cleanmp.1-after-batch-flush")
 
 	metaTx := d.db.NewTransactionAt(tsMetadata, true)
 	defer metaTx.Discard()
@@ -279,6 +281,7 @@ func (d *badgerNodeDB) cleanMultipartLocked(removeNodes bool) error {
 	if err := metaTx.CommitAt(tsMetadata, nil); err != nil {
 		return err
 	}
+	verifCrashPoint("badger.cleanmp.2-after-meta-commit")
 
 	d.multipartVersion = multipartVersionNone
 	return nil
@@ -702,10 +705,12 @@ func (d *badgerNodeDB) Finalize(roots []node.Root) error { // nolint: gocyclo
 		}
 	}
 
+	verifCrashPoint("badger.finalize.0-before-writes")
 	// Commit batch.
 	if err := versionBatch.Flush(); err != nil {
 		return err
 	}
+	verifCrashPoint("badger.finalize.1-after-batch-flush")
 
 	// Save roots metadata if changed.
 	if rootsChanged {
@@ -722,6 +727,7 @@ func (d *badgerNodeDB) Finalize(roots []node.Root) error { // nolint: gocyclo
 	if err := tx.CommitAt(tsMetadata, nil); err != nil {
 		return fmt.Errorf("mkvs/badger: failed to commit metadata: %w", err)
 	}
+	verifCrashPoint("badger.finalize.2-after-meta-commit")
 
 	// Clean multipart metadata if there is any.
 	if d.multipartVersion != multipartVersionNone {
@@ -830,10 +836,12 @@ func (d *badgerNodeDB) Prune(version uint64) error {
 		}
 	}
 
+	verifCrashPoint("badger.prune.0-before-writes")
 	// Commit batch.
 	if err := batch.Flush(); err != nil {
 		return fmt.Errorf("mkvs/badger: failed to flush batch: %w", err)
 	}
+	verifCrashPoint("badger.prune.1-after-batch-flush")
 
 	// Update metadata.
 	if err := d.meta.setEarliestVersion(tx, version+1); err != nil {
@@ -842,6 +850,7 @@ func (d *badgerNodeDB) Prune(version uint64) error {
 	if err := tx.CommitAt(tsMetadata, nil); err != nil {
 		return fmt.Errorf("mkvs/badger: failed to commit: %w", err)
 	}
+	verifCrashPoint("badger.prune.2-after-meta-commit")
 
 	// Discard everything invalidated at or below given version.
 	d.db.SetDiscardTs(versionToTs(version + 1))
@@ -866,6 +875,7 @@ func (d *badgerNodeDB) StartMultipartInsert(version uint64) error {
 		return nil
 	}
 
+	verifCrashPoint("badger.startmp.0-before-writes")
 	tx := d.db.NewTransactionAt(tsMetadata, true)
 	defer tx.Discard()
 	if err := d.meta.setMultipartVersion(tx, version); err != nil {
@@ -874,6 +884,7 @@ func (d *badgerNodeDB) StartMultipartInsert(version uint64) error {
 	if err := tx.CommitAt(tsMetadata, nil); err != nil {
 		return err
 	}
+	verifCrashPoint("badger.startmp.1-after-meta-commit")
 
 	d.multipartVersion = version
 
@@ -1117,20 +1128,24 @@ func (ba *badgerBatch) Commit(root node.Root) error {
 		}
 	}
 
+	verifCrashPoint("badger.commit.0-before-writes")
 	// Flush node updates.
 	if ba.multipartNodes != nil {
 		if err = ba.multipartNodes.Flush(); err != nil {
 			return fmt.Errorf("mkvs/badger: failed to flush node log batch: %w", err)
 		}
+		verifCrashPoint("badger.commit.1-after-mplog-flush")
 	}
 	if err = ba.bat.Flush(); err != nil {
 		return fmt.Errorf("mkvs/badger: failed to flush batch: %w", err)
 	}
+	verifCrashPoint("badger.commit.2-after-batch-flush")
 
 	// Commit root metadata updates. This is done last, so in case we fail, we can still retry.
 	if err = tx.CommitAt(tsMetadata, nil); err != nil {
 		return err
 	}
+	verifCrashPoint("badger.commit.3-after-meta-commit")
 
 	ba.writeLog = nil
 	ba.annotations = nil
